@@ -315,7 +315,7 @@ def cont_cond(mc, ml, n, size):
 def evaluate(c, D):
     """-> (violations [(clause, level, text)], per-level clause bits as the checker computes them, model input line,
            notes dict).  Everything below is the property's own statement evaluated on the implementation's output."""
-    V = []; bits = []; notes = {}
+    V = []; bits = []; notes = {}; c["wfP"] = {}
     np_ = D.np; L = D.levels; nlev = len(L)
     mc, ml = c["max_coarse"], c["max_levels"]
     # names and position numbering per level
@@ -393,7 +393,7 @@ def evaluate(c, D):
                 V.append(("conformal", l, "level %d has a successor but no P on some rank" % l)); gal = False
             else:
                 wfP = all(0 <= i < n and 0 <= j < n2 for (i, j, v, s) in tP)
-                dims = wfP
+                dims = wfP; c["wfP"][l] = wfP
                 names2 = set(names[l + 1])
                 for R, R2 in zip(lv.ranks, L[l + 1].ranks):
                     okr = R.pgrows == n and R.pgcols == n2 and R.plrows == R.lrows and R.plcols == R2.lrows
@@ -466,7 +466,7 @@ def judge(ctx, c, res, mres):
     ctx.count("strength%d" % c["strength"]); ctx.count("tap%d" % c["tap"]); ctx.count("max_levels_%d" % c["max_levels"])
     if c["nvars"] > 1: ctx.count("nvars2")
     if not res or res[0][0] == "CRASH" or not any(k == "DONE" for k, _ in res):
-        ctx.signal("O", "hier:crash:" + c["solver"], "setup crashed / hung / produced no hierarchy: %s" % (res[:1],), case=c["line"]); return
+        ctx.signal("O", "hier:crash:" + c["solver"], "setup crashed / hung / produced no hierarchy: %s" % ((res or [])[:1],), case=c["line"]); return
     d = dict(res)
     if "NOSTOP" in d:
         # max_levels = -1 and coarsening stagnates: the unlimited setup would not return.  The probe hierarchy
@@ -510,7 +510,12 @@ def judge_model(ctx, c, mres):
         ctx.signal("K", sig + ":verdict", "hier_ok accepts a hierarchy the oracle rejects", case=c["line"])
     for l, b in enumerate(c["bits"]):
         got = [x == "1" for x in m.get("CL%d" % l, [])]
-        if got != [bool(x) for x in b]:
+        want = [bool(x) for x in b]
+        # the product clauses are only meaningful (and only specified by the soundness theorem) on well-formed
+        # operators of matching sizes; on ill-formed dumps both sides already report the sizes clause
+        if len(want) > 4 and len(got) == len(want) and not (want[0] and c["bits"][l + 1][0] and c["wfP"].get(l, False)):
+            got[4] = want[4]; got[5] = want[5]
+        if got != want:
             ctx.signal("K", sig + ":clauses", "level %d: checker clauses %s, Python %s (sizes vectors maps cont [prolong galerkin coarsening])" % (l, got, b), case=c["line"])
     mo = m.get("MODEL")
     if mo is None: return
